@@ -28,7 +28,8 @@ LATE_REJECT = {   # keyword values refused after the item registered itself: [Ty
     'well_reference_point': [{'permanent_datum': 1}, {'permanent_datum': {'value': 'p', 'units': 'm'}}],
     'group': [{'description': 1}, {'description': {'value': 'd', 'units': 'm'}}, {'object_list': [5]}],
     'origin': [{'product': 5}, {'product': {'value': 'p', 'units': 'm'}}, {'descent_number': 'x'}],
-    'channel': [{'minimum_value': 'x'}, {'dimension': {'value': [1], 'units': 'm'}}, {'cast_dtype': 'not-a-dtype'}],
+    'channel': [{'minimum_value': 'x'}, {'dimension': {'value': [1], 'units': 'm'}}, {'cast_dtype': 'not-a-dtype'},
+                {'cast_dtype': 'float32'}, {'cast_dtype': float}, {'cast_dtype': 'u1'}, {'cast_dtype': '<f8'}],
 }
 
 
@@ -50,7 +51,7 @@ def gen_history(R, tier):
             if pool_of[lf] == 0 and R.random() < 0.5:
                 sn = None
         else:
-            sn = R.choice([None, None, 'S1'])
+            sn = R.choice([None, None, 'S1', ''])       # '' : an empty name is no name
         out = R.choice(['ok', 'ok', 'ok', 'ok', 'early', 'late'])
         oref = R.choice([None, None, None, 0, 5, 5, 128]) if kind != 'origin' else R.choice([None, None, 5, 5, 7])
         ops.append({'lf': lf, 'kind': kind, 'sn': sn, 'name': R.choice(names), 'oref': oref, 'out': out,
